@@ -120,4 +120,51 @@ def standin_numpy_digits(tier, seed):
                 cases=cases, distinct=len(distinct), failures=len(fails), exhaustive=False, _fails=fails[:3])
 standin_numpy_digits.prop = "C18"
 
-STANDINS = [standin_views, standin_numpy_digits]
+def standin_state_histogram(tier, seed):
+    """cirq.vis.get_state_histogram: counts per big-endian state index over all measured bits, for narrow record dtypes and wide registers"""
+    import random
+
+    import numpy as np
+
+    import cirq
+    from cirq.vis import state_histogram as sh
+
+    rng = random.Random(seed + 3)
+    cases, fails = 0, []
+    for n_bits in (1, 3, 7, 8, 9, 10, 12):
+        for dtype in (np.int8, np.uint8, bool, np.int32, np.int64):
+            for split in ((n_bits,), (n_bits // 2, n_bits - n_bits // 2)) if n_bits > 1 else ((1,),):
+                reps = 30
+                rows = [[rng.randrange(2) for _ in range(n_bits)] for _ in range(reps)]
+                rows[0] = [1] + [0] * (n_bits - 1)  # the highest bit alone
+                rows[1] = [1] * n_bits
+                arr = np.array(rows)
+                meas, off = {}, 0
+                for i, w in enumerate(split):
+                    meas[f"k{i}"] = arr[:, off:off + w].astype(dtype)
+                    off += w
+                res = cirq.ResultDict(params=cirq.ParamResolver({}), measurements=meas)
+                cases += 1
+                want = np.zeros(2 ** n_bits)
+                for r in rows:
+                    want[int("".join(map(str, r)), 2)] += 1
+                try:
+                    got = sh.get_state_histogram(res)
+                except Exception as ex:
+                    fails.append(dict(args=dict(bits=n_bits, dtype=np.dtype(dtype).name, keys=split), failed="state-histogram", clause=f"get_state_histogram raised {ex!r}"))
+                    continue
+                if got.shape != want.shape or not np.array_equal(got, want):
+                    fails.append(dict(args=dict(bits=n_bits, dtype=np.dtype(dtype).name, keys=split), failed="state-histogram",
+                                      clause="get_state_histogram counts differ from counting the big-endian bit strings of the records"))
+    # and on a real simulator result (int8 records) with 9 qubits, highest qubit set
+    qs = cirq.LineQubit.range(9)
+    r = cirq.Simulator(seed=1).run(cirq.Circuit(cirq.X(qs[0]), cirq.H(qs[8]), cirq.measure(*qs, key="m")), repetitions=20)
+    cases += 1
+    h = sh.get_state_histogram(r)
+    if h[256] + h[257] != 20:
+        fails.append(dict(args=dict(circuit="X(q0), H(q8), measure(q0..q8)"), failed="state-histogram", clause="simulator result with the highest of 9 qubits set is not counted in bins 256/257"))
+    return dict(function="cirq-core/cirq/vis/state_histogram.py:get_state_histogram", case="state-histogram", bound="1-12 measured bits x 5 record dtypes x 1-2 keys, 30 repetitions incl. highest bit set; one simulator result",
+                cases=cases, distinct=cases, failures=len(fails), exhaustive=False, _fails=fails[:3])
+standin_state_histogram.prop = "C18"
+
+STANDINS = [standin_views, standin_numpy_digits, standin_state_histogram]
